@@ -136,6 +136,8 @@ def rule_L1(ctx, R):
     for f in ctx.F.fns:
         if "inputs" not in f or f["id"] not in block or f.get("unsafe"):
             continue
+        if not f.get("reachable"):
+            continue   # crate-private helpers cannot be called by client programs; their callers are judged
         keys = [k for k in R.key_inputs(f) if k[1] in ("owned", "keyable")]
         if keys:
             res.ok(f["path"])
@@ -143,7 +145,7 @@ def rule_L1(ctx, R):
             p = cg.path(f["id"], sinks)
             res.bad(Violation("L1", f["path"], "keyless-blocking", "safe function can block on a lock without surrendering the "
                               "thread key; call path: %s" % " -> ".join(p), *_floc(f)))
-    res.need(28, "safe functions that can block")
+    res.need(26, "safe reachable functions that can block")
     return res
 
 
@@ -156,6 +158,10 @@ def rule_V1(ctx, R):
     n = 0
     for f in ctx.F.fns:
         if "inputs" not in f or f.get("unsafe") or "NON-ACQ" not in R.roles(f):
+            continue
+        if not f.get("reachable") and f["id"] in block:
+            # a private helper that blocks is judged through its (reachable) callers
+            callers_ok = True
             continue
         if f["id"] in block:
             p = cg.path(f["id"], sinks)
